@@ -92,6 +92,12 @@ EDITS = {
         ("pp03", PAR + "preparser.rs", "        } else if token.kind != TokenKind::Eof {", "        } else if token.kind != TokenKind::Error {", "verus", "preparse"),
         ("pp04", PAR + "preparser.rs", "            // Collect trivia\n            pending_trivia.push(i);", "            if token.kind != TokenKind::Whitespace { pending_trivia.push(i); }", "verus", "preparse"),
         ("cp01", PAR + "cst_parser.rs", "        self.current += 1;\n    }\n\n    /// Expect a specific token kind", "        self.current += 2;\n    }\n\n    /// Expect a specific token kind", "verus", "parser_tokens"),
+        ("gr01", PAR + "green.rs", "            parent_children.push(node_id);", "            parent_children.insert(0, node_id);", "verus", "parser_tokens"),
+        ("gr02", PAR + "green.rs", "self.nodes.insert(GreenNode::Token { token_index, width })", "self.nodes.insert(GreenNode::Token { token_index: width, width })", "verus", "parser_tokens"),
+        ("gr03", PAR + "green.rs", "            // Push new node with those children\n            self.stack.push((kind, wrapped_children));", "            // Push new node with those children\n            self.stack.push((kind, Vec::new()));", "verus", "parser_tokens"),
+        ("gr04", PAR + "green.rs", "        if let Some((kind, children)) = self.stack.pop() {\n            let node_id = self.arena.alloc_internal(kind, children);", "        if let Some((kind, mut children)) = self.stack.pop() {\n            children.pop();\n            let node_id = self.arena.alloc_internal(kind, children);", "verus", "parser_tokens"),
+        ("gr05", PAR + "green.rs", "        let token_id = self.arena.alloc_token(token_index, width);\n        if let Some((_, children)) = self.stack.last_mut() {", "        let token_id = self.arena.alloc_token(token_index, width);\n        if let Some((_, children)) = self.stack.first_mut() {", "verus", "parser_tokens"),
+        ("cp06", PAR + "cst_parser.rs", "        self.builder.start_node(SyntaxKind::Program);\n\n        while !self.is_at_end() {", "        while !self.is_at_end() {", "verus", "parser_tokens"),
         ("cp03", PAR + "cst_parser.rs", "            if self.current == before && !self.is_at_end() {", "            if self.current != before && !self.is_at_end() {", "verus", "parser_tokens"),
         ("cp04", PAR + "cst_parser.rs", "        if self.check(kind) {\n            self.bump();\n            true", "        if self.check(kind) {\n            true", "verus", "parser_tokens"),
         ("cp05", PAR + "cst_parser.rs", "        self.peek().is_none_or(|k| k == TokenKind::Eof)", "        self.peek().is_none_or(|k| k == TokenKind::Error)", "verus", "parser_tokens"),
@@ -125,6 +131,8 @@ def _files_needed(here, cfg):
     paths = set()
     for u in cfg.get("verus_units", []):
         t = open(os.path.join(here, "contracts", u + ".vrs")).read()
+        for inc in re.findall(r"//@ include (\S+)", t):
+            t += open(os.path.join(here, "contracts", inc)).read()
         paths |= set(re.findall(r"//@ cut (\S+) ::", t))
     for ku in cfg.get("kani_units", []):
         d = os.path.join(here, "kani", ku["unit"])
